@@ -300,7 +300,28 @@ LIT_MODES = {
     "length": ("length", [], "plain"), "plus0": (". + 0", [], "plain"), "mul1": (". * 1", [], "plain"),
     "sub0": (". - 0", [], "plain"), "reparse": ("tojson | tonumber", [], "plain"),
     "fromjson": ("tojson | fromjson", [], "plain"),
+    "roundtrip": ("(. + 0) | (tojson | tonumber) == .", [], "plain"),
+    "raw": (".", ["-r"], "plain"), "color": (".", ["-C"], "plain"),
+    "pretty": (".", ["--indent", "2"], "arr"),         # three output lines per literal
 }
+LINES_PER = {"pretty": 3}
+NO_COMPACT = {"pretty"}
+
+
+def mode_args(mode):
+    q, extra, how = LIT_MODES[mode]
+    return ([] if mode in NO_COMPACT else ["-c"]) + extra + [q]
+
+
+def split_lines(out, per):
+    lines = out.split("\n")
+    if lines and lines[-1] == "":
+        lines.pop()
+    if per > 1:
+        if len(lines) % per:
+            return None
+        lines = ["\n".join(lines[i:i + per]) for i in range(0, len(lines), per)]
+    return lines
 SPECIALS = {"nan": ["nan", "infinite - infinite", "[nan] | .[0]"],
             "inf": ["infinite", "1e1000", "1e200 * 1e200", "-(-infinite)"],
             "-inf": ["-infinite", "-1e1000", "-1e200 * 1e200"]}
@@ -329,29 +350,22 @@ def lit_batch(work, gojq, mode, texts, use_file, tag):
         path = work.path("lit_%s_%s.json" % (tag, mode))
         with open(path, "w") as f:
             f.write(data)
-        rc, out, err = run_gojq(gojq, ["-c"] + extra + [q, path])
+        rc, out, err = run_gojq(gojq, mode_args(mode) + [path])
         os.remove(path)
     else:
-        rc, out, err = run_gojq(gojq, ["-c"] + extra + [q], stdin_text=data)
-    lines = out.split("\n")
-    if lines and lines[-1] == "":
-        lines.pop()
-    if rc == 0 and len(lines) == len(texts):
+        rc, out, err = run_gojq(gojq, mode_args(mode), stdin_text=data)
+    lines = split_lines(out, LINES_PER.get(mode, 1))
+    if rc == 0 and lines is not None and len(lines) == len(texts):
         return lines
     # something failed inside the batch: one process per literal to find out which
-    res = []
-    for t in texts:
-        rc, out, err = run_gojq(gojq, ["-c"] + extra + [q], stdin_text=wrap_input(t, how) + "\n")
-        ls = out.split("\n")
-        res.append(ls[0] if rc == 0 and len(ls) == 2 and ls[1] == "" else None)
-    return res
+    return [lit_single(gojq, mode, t)[0] for t in texts]
 
 
 def lit_single(gojq, mode, text):
     q, extra, how = LIT_MODES[mode]
-    rc, out, err = run_gojq(gojq, ["-c"] + extra + [q], stdin_text=wrap_input(text, how) + "\n")
-    ls = out.split("\n")
-    return (ls[0] if rc == 0 and len(ls) == 2 and ls[1] == "" else None), err
+    rc, out, err = run_gojq(gojq, mode_args(mode), stdin_text=wrap_input(text, how) + "\n")
+    ls = split_lines(out, LINES_PER.get(mode, 1))
+    return (ls[0] if rc == 0 and ls is not None and len(ls) == 1 else None), err
 
 
 def cps(s):
